@@ -1,5 +1,7 @@
 // Positive control for C20's zero-expected rules: each construct below must be matched on every run.
 #include <algorithm>
+#include <functional>
+#include <iterator>
 #include <list>
 #include <map>
 #include <vector>
@@ -18,5 +20,8 @@ std::string iteratesByAddress(std::map<Node*, int>& m) {
 	return ss.str();
 }
 void ordersByAddress(std::list<Node*>& a, std::list<Node*>& b, std::vector<Node*>& v) { a.merge(b); a.sort(); std::sort(v.begin(), v.end()); }
+bool comparesAddresses(Node* a, Node* b) { return a < b; }
+bool lessOnAddresses(Node* a, Node* b) { return std::less<Node*>()(a, b); }
+void setAlgebraOnAddresses(std::vector<Node*>& a, std::vector<Node*>& b, std::vector<Node*>& out) { std::set_difference(a.begin(), a.end(), b.begin(), b.end(), std::back_inserter(out)); }
 int usesPid() { return (int)getpid(); }
 }
